@@ -328,6 +328,9 @@ func init() {
 				cs = append(cs, Case{Kind: "multi", Seed: h.Mix(seed, 0xC14C, uint64(i))})
 			}
 			cs = append(cs, Case{Kind: "forkswitch"})
+			for i := 0; i < 16; i++ {
+				cs = append(cs, Case{Kind: "proxy", Seed: h.Mix(seed, 0xC14D, uint64(i))})
+			}
 			return cs
 		},
 		Run: runC14,
@@ -467,6 +470,55 @@ func runC14(c Case, tier string) (res CaseResult) {
 				}
 			}
 		}
+	case "proxy":
+		// the code that CALLs the precompile is borrowed: a chain of proxies runs library code by DELEGATECALL / CALLCODE
+		// (possibly through several hops, possibly reached through ordinary forwarders first). The call that reaches the
+		// precompile is then made by the proxy at the head of the borrowing chain, whose address must own the write,
+		// and whose address the read precompile must be asked about.
+		r := h.NewRNG(c.Seed)
+		fork := h.Pick(r, c14Forks)
+		nFwd, nHop := r.Intn(2), 1+r.Intn(2)
+		var codes [][]byte
+		for i := 0; i < nFwd; i++ {
+			codes = append(codes, c14Forwarder(h.ContractAddr(i+1)))
+		}
+		owner := h.ContractAddr(nFwd)
+		var hops []string
+		for j := 0; j < nHop; j++ {
+			kind := h.Pick(r, []byte{h.DELEGATECALL, h.CALLCODE})
+			hops = append(hops, kindName(kind))
+			a := h.NewAsm().Op(h.CALLDATASIZE).PushU(0).PushU(0).Op(h.CALLDATACOPY)
+			a.PushU(0).PushU(0).Op(h.CALLDATASIZE).PushU(0)
+			if kind == h.CALLCODE {
+				a.PushU(0)
+			}
+			a.PushAddr(h.ContractAddr(nFwd+j+1)).PushU(1_500_000).Op(kind, h.POP)
+			a.Op(h.RETURNDATASIZE).PushU(0).PushU(0).Op(h.RETURNDATACOPY).Op(h.RETURNDATASIZE).PushU(0).Op(h.RETURN)
+			codes = append(codes, a.Bytes())
+		}
+		codes = append(codes, c14Last(h.CALL, addrCtxWrite, 100000, fork))
+		payload := abibytes.Encode([]byte(fmt.Sprintf("key-%d", c.Seed%97)), r.Bytes(1+r.Intn(60)))
+		fs := h.NewForkSession(h.BaseWorld(codes), h.EnvSpec{Fork: fork}, h.ForkOpts{Debug: true})
+		ir := fs.Invoke(h.TxSpec{Entry: h.ECall, From: h.Sender, To: h.ContractAddr(0), Input: payload, Gas: 8_000_000})
+		desc := fmt.Sprintf("fork=%s %d forwarders, then %v to library code that CALLs 0x66; expected owner %s", fork, nFwd, hops, owner.Hex())
+		res.Count("calls", 1)
+		res.Count("valid_payloads", 1)
+		res.Count("proxy_chain_writes", 1)
+		res.Evals = 1
+		if ir.Panic != "" {
+			res.Fail(Key("panic", "0x66", "proxy"), "precompile call panicked: "+firstLine(ir.Panic), desc, clip(ir.PanicStk, 1500))
+			break
+		}
+		var got []common.Address
+		for i := range fs.L.Events {
+			if e := &fs.L.Events[i]; e.K == h.KCtxSet {
+				got = append(got, e.Addr)
+			}
+		}
+		if len(got) != 1 || got[0] != owner {
+			res.Fail(Key("wrong-attribution", "proxy"), "a context write made by borrowed code was not recorded (exactly once) under the contract whose call reached the precompile", desc, fmt.Sprintf("recorded under: %v", got))
+		}
+		res.Shape("proxy", fork, nFwd, hops)
 	case "multi":
 		// several different contracts write through 0x66 within ONE EVM instance (also across two transactions):
 		// each write must be recorded under the contract whose CALL reached the precompile
